@@ -1,3 +1,3 @@
 #!/bin/bash
 # build helper: show only errors (first lines of each) — development aid
-cd /verif/lean && lake build "$@" 2>&1 | awk '/^error:|error: /{p=12} p>0{print; p--}' | head -${LB_LINES:-80}
+cd /verif/lean && lake build "$@" 2>&1 | awk '/^error:|error: /{p=ENVIRON["LB_CTX"]?ENVIRON["LB_CTX"]:12} p>0{print; p--}' | head -${LB_LINES:-80}
